@@ -264,12 +264,16 @@ def mkcfg(kind, lim=NONE, ovf=False, rl=NONE, wl=NONE):
 
 
 def exhaustive(cfg, alphabet, length):
-    """every history of exactly `length` symbols (prefixes are validated on the way), deduplicated by events"""
+    """every history of exactly `length` symbols (prefixes are validated on the way), deduplicated by events;
+    a symbol is one op or a list of ops"""
     import itertools
     import json
     seen, out = set(), []
     for combo in itertools.product(alphabet, repeat=length):
-        t = run_history(cfg, list(combo) + [("end",)])
+        ops = []
+        for sym in combo:
+            ops.extend(sym if isinstance(sym, list) else [sym])
+        t = run_history(cfg, ops + [("end",)])
         key = json.dumps(t["ev"], sort_keys=True)
         if key not in seen:
             seen.add(key)
@@ -278,14 +282,18 @@ def exhaustive(cfg, alphabet, length):
 
 
 B, CN, LO, LN = ("build",), ("connect", ["built", -1]), ("lost", ["open", 0]), ("lost", ["open", -1])
+BC = [B, CN]
+# (cfg, alphabet, word length quick, word length thorough)
 ALPHABETS = [
-    (mkcfg("limit", 1, True), [B, CN, LO, LN, ("data", ["open", -1], 1), ("lose", ["open", 0])]),
-    (mkcfg("limit", 2, False), [B, CN, LO, LN, ("write", ["open", -1], 2)]),
-    (mkcfg("throttle", 1, rl=1), [B, CN, LO, ("data", ["open", 0], 3), ("data", ["open", 0], 5), ("adv", 2), ("adv", 3)]),
-    (mkcfg("throttle", NONE, rl=2, wl=1), [B, CN, LO, ("data", ["open", -1], 5), ("write", ["open", 0], 3),
-                                           ("regprod", ["open", 0]), ("adv", 2)]),
-    (mkcfg("throttle", 2, wl=1), [B, CN, LO, ("wseq", ["open", 0], 2), ("regprod", ["open", -1]),
-                                  ("unregprod", ["open", 0]), ("adv", 1), ("adv", 2)]),
+    (mkcfg("limit", 1, True), [B, CN, LO, LN, ("data", ["open", -1], 1), ("lose", ["open", 0])], 4, 5),
+    (mkcfg("limit", 2, False), [B, CN, LO, LN, ("write", ["open", -1], 2)], 5, 6),
+    (mkcfg("throttle", 1, rl=1), [B, CN, LO, ("data", ["open", 0], 3), ("adv", 2)], 4, 6),
+    (mkcfg("throttle", NONE, rl=1), [BC, LO, ("data", ["open", 0], 3), ("adv", 2)], 6, 7),       # two sessions (ODDITY 3)
+    (mkcfg("throttle", NONE, rl=2), [BC, LO, ("data", ["open", 0], 5), ("adv", 2), ("adv", 3)], 5, 6),   # overlapping throttles
+    (mkcfg("throttle", NONE, rl=2, wl=1), [BC, LO, ("data", ["open", -1], 5), ("write", ["open", 0], 3),
+                                           ("regprod", ["open", 0]), ("adv", 2)], 4, 5),
+    (mkcfg("throttle", 2, wl=1), [BC, LO, ("wseq", ["open", 0], 2), ("regprod", ["open", -1]),
+                                  ("unregprod", ["open", 0]), ("adv", 2)], 5, 6),
 ]
 
 
@@ -319,8 +327,10 @@ def random_ops(rng, n):
             ops.append(("unregprod", ["open", k]))
         elif r < 0.61:
             ops.append(("lose", ["open", k]))
-        elif r < 0.76:
+        elif r < 0.72:
             ops.append(("lost", ["open", k]))
+        elif r < 0.76:
+            ops.extend([("connect", ["built", 0]), ("lost", ["open", 0])] * 3)      # (mostly) end the session
         else:
             ops.append(("adv", rng.choice([0, 1, 1, 2, 2, 2, 3, 4, 5])))
     ops.append(("end",))
@@ -356,12 +366,12 @@ def run(ctx):
             raise MachineryError("vacuity: %s expected reachable, got ok=%s kind=%s" % (what, r.ok, r.kind))
 
     traces = []
-    for cfg, alphabet in ALPHABETS:
-        got = exhaustive(cfg, alphabet, ctx.pick(4, 5))
-        ctx.log("exhaustive: %s alphabet %d -> %d distinct histories" % (cfg, len(alphabet), len(got)))
+    for cfg, alphabet, lq, lt in ALPHABETS:
+        got = exhaustive(cfg, alphabet, ctx.pick(lq, lt))
+        ctx.log("exhaustive: %s alphabet %d, words of %d -> %d distinct histories" % (cfg, len(alphabet), ctx.pick(lq, lt), len(got)))
         traces.extend(got)
     nshort = len(traces)
-    for _ in range(ctx.pick(800, 25000)):
+    for _ in range(ctx.pick(700, 15000)):
         traces.append(run_history(random_cfg(ctx.rng), random_ops(ctx.rng, ctx.rng.randint(6, 40))))
     ctx.note_traces(traces)
     ctx.extra["exhaustive_short_histories"] = nshort
